@@ -157,7 +157,20 @@ impl<T> Chan<T> {
         r
     }
 
+    fn drop_point(&self) {
+        if let Some(ctx) = session::current() {
+            if ctx.session.drop_points {
+                if let Some(exec) = ctx.exec.as_ref() {
+                    if !exec.aborted() {
+                        exec.point(ctx.tid, Op::DropEndpoint);
+                    }
+                }
+            }
+        }
+    }
+
     fn drop_sender(&self) {
+        self.drop_point();
         // taking the queue lock orders the decrement against a waiting receiver
         let g = self.lockq();
         let remaining = self.meta.senders.fetch_sub(1, Ordering::SeqCst) - 1;
@@ -173,6 +186,7 @@ impl<T> Chan<T> {
     }
 
     fn drop_receiver(&self) {
+        self.drop_point();
         let drained: Vec<T> = {
             let mut q = self.lockq();
             self.meta.rx_alive.store(false, Ordering::SeqCst);
